@@ -1,6 +1,7 @@
 """C16 - parallel STL (narrow, structural clauses)."""
 import re
 
+from gsa import rules as R
 from gsa.cfg import Fn, S, SN, is_call, walk, lit, stores, cmp_pred
 from gsa import lock as L
 from gsa import race
@@ -39,6 +40,14 @@ def run(ctx):
     sorting(ctx, fx)
     reducers(ctx, fx)
     find_if(ctx, fx)
+    ctx.rule("C16.fold.accumulator-holds-elements",
+             "every std::accumulate / reduce / exclusive_scan / inner_product inside ParallelSTL.h folds in a type that can hold "
+             "the elements: the accumulator has the type of the init argument (a literal 0 makes it int), so it must not be "
+             "narrower than the element type, nor integral over floating-point elements -- in every instantiation the driver "
+             "creates (32- and 64-bit integers, double)")
+    R.fold_accumulators(ctx, fx, "C16.fold.accumulator-holds-elements", r"galois/ParallelSTL\.h$")
+    ps = [f for f in fx.functions if f["qn"] == "galois::ParallelSTL::partial_sum" and f["kind"] == "inst"]
+    ctx.floor("partial_sum instantiations (element types)", len(ps), 3)
 
 
 def partition(ctx, fx):
